@@ -1,10 +1,10 @@
 INIT Init
 NEXT Stutter
-CONSTANTS N = 2
+CONSTANTS N = 5
  NNames = 2
- FullY = TRUE
- Pep709 = FALSE
- Skeleton = FALSE
+ FullY = FALSE
+ Pep709 = TRUE
+ Skeleton = TRUE
  AllOptions = FALSE
 INVARIANT EmitProgram
 CHECK_DEADLOCK FALSE
